@@ -5,8 +5,9 @@ What is mirrored (quirks included):
 * `validateVoteMessage`      – the checks in the order of the code: signature (oracle), set id, round window
                                (`round-1 … round+1`, saturating at 0), lagging round (error), round ahead
                                (tracker + error), `pubkeyToVoter`, vote from ourselves, `validateVote`
-                               (`HasHeader`, vote number = header number, descendant of the finalised head; the
-                               tracker keeps votes for unknown blocks), `checkAndReportEquivocation`, the store
+                               (`HasHeader`, descendant of the finalised head; the vote's NUMBER is not compared
+                               with the header: known finding c21-wrong-number-vote-counted; the tracker keeps
+                               votes for unknown blocks), `checkAndReportEquivocation`, the store
                                by stage (`prevote`/`primaryProposal` → prevotes, `precommit` → precommits, any
                                other stage byte → nothing is stored and the answer is still `ok`).
 * `checkAndReportEquivocation` – an authority already in the equivocation map: the vote is appended there;
@@ -107,6 +108,7 @@ structure Cfg where
   chg : Chg
   round : Nat
   set : Nat
+  strict : Bool := false   -- `true`: the vote number is checked against the header (what the property demands)
   deriving Repr
 
 def Cfg.number (c : Cfg) (b : Nat) : Nat := c.base + c.t.depth b
@@ -147,10 +149,12 @@ def aget {α : Type} (l : List (Nat × α)) (k : Nat) : Option α :=
   | [] => none
   | (k', v) :: rest => if k' = k then some v else aget rest k
 
-def ahas {α : Type} (l : List (Nat × α)) (k : Nat) : Bool := l.any (fun p => p.1 == k)
+def ahas {α : Type} (l : List (Nat × α)) (k : Nat) : Bool := (aget l k).isSome
 
-def aset {α : Type} (l : List (Nat × α)) (k : Nat) (v : α) : List (Nat × α) :=
-  if ahas l k then l.map (fun p => if p.1 == k then (k, v) else p) else l ++ [(k, v)]
+/-- `m[k] = v` -/
+def aset {α : Type} : List (Nat × α) → Nat → α → List (Nat × α)
+  | [], k, v => [(k, v)]
+  | (k', v') :: rest, k, v => if k' = k then (k, v) :: rest else (k', v') :: aset rest k v
 
 def adel {α : Type} (l : List (Nat × α)) (k : Nat) : List (Nat × α) := l.filter (fun p => p.1 != k)
 
@@ -162,7 +166,7 @@ def trackAdd (trk : List (Nat × Nat)) (blk key : Nat) : List (Nat × Nat) :=
 /-- `validateVote` -/
 def validateVote (c : Cfg) (v : Vote) : Option Err :=
   if c.t.size ≤ v.blk then some .noblock
-  else if v.num ≠ c.number v.blk then some .num
+  else if c.strict && v.num != c.number v.blk then some .num
   else match isDesc c.t c.fin v.blk with
     | .yes => none
     | .no => some .notdesc
@@ -239,17 +243,20 @@ def Perms.id : Perms := ⟨fun l => l, fun l => l, fun l => l⟩
 
 /-! ### grandpa.go: tallies -/
 
-def dvAdd (dv : List (Vote × Nat)) (v : Vote) : List (Vote × Nat) :=
-  if dv.any (fun p => p.1 == v) then dv.map (fun p => if p.1 == v then (p.1, p.2 + 1) else p)
-  else dv ++ [(v, 1)]
+/-- `votes[sv.Vote]++` -/
+def dvAdd : List (Vote × Nat) → Vote → List (Vote × Nat)
+  | [], v => [(v, 1)]
+  | (w, c) :: rest, v => if w = v then (w, c + 1) :: rest else (w, c) :: dvAdd rest v
 
-/-- `getDirectVotes` -/
-def directVotes (votes : List (Nat × Vote)) : List (Vote × Nat) :=
-  votes.foldl (fun dv kv => dvAdd dv kv.2) []
+/-- `getDirectVotes`: the Go map `Vote → count` (its iteration order is applied where it is ranged over) -/
+def directVotes : List (Nat × Vote) → List (Vote × Nat)
+  | [] => []
+  | kv :: rest => dvAdd (directVotes rest) kv.2
 
-/-- `getVotesForBlock` -/
-def votesFor (t : Tree) (b : Nat) (dv : List (Vote × Nat)) : Nat :=
-  dv.foldl (fun acc p => match isDesc t b p.1.blk with | .yes => acc + p.2 | _ => acc) 0
+/-- `getVotesForBlock`: the sum over the map (addition commutes: no iteration order) -/
+def votesFor (t : Tree) (b : Nat) : List (Vote × Nat) → Nat
+  | [] => 0
+  | p :: rest => (if isDesc t b p.1.blk = .yes then p.2 else 0) + votesFor t b rest
 
 /-- `getTotalVotesForBlock`: the equivocators count for every block -/
 def total (t : Tree) (dv : List (Vote × Nat)) (e : Nat) (b : Nat) : Nat := votesFor t b dv + e
